@@ -76,6 +76,86 @@ func instrBlock(name string, b *ast.BlockStmt) {
 	b.List = out
 }
 
+// lockCall classifies a top-level statement: "lock", "unlock", "deferunlock" or "".
+func lockCall(st ast.Stmt) string {
+	sel := func(e ast.Expr) string {
+		if c, ok := e.(*ast.CallExpr); ok {
+			if s, ok := c.Fun.(*ast.SelectorExpr); ok {
+				return s.Sel.Name
+			}
+		}
+		return ""
+	}
+	switch x := st.(type) {
+	case *ast.ExprStmt:
+		switch sel(x.X) {
+		case "Lock", "RLock":
+			return "lock"
+		case "Unlock", "RUnlock":
+			return "unlock"
+		}
+	case *ast.DeferStmt:
+		switch sel(x.Call) {
+		case "Unlock", "RUnlock":
+			return "deferunlock"
+		}
+	}
+	return ""
+}
+
+func mentionsLock(n ast.Node) bool {
+	found := false
+	ast.Inspect(n, func(n ast.Node) bool {
+		if c, ok := n.(*ast.CallExpr); ok {
+			if s, ok := c.Fun.(*ast.SelectorExpr); ok {
+				switch s.Sel.Name {
+				case "Lock", "RLock", "Unlock", "RUnlock":
+					found = true
+				}
+			}
+		}
+		return true
+	})
+	return found
+}
+
+// instrLocking instruments a method that takes a lock at its top level: one yield at entry,
+// and statement-level yields in every top-level region where no lock is held (before the
+// lock, and after an explicit, non-deferred unlock), including the bodies of loops and
+// branches there as long as they do not lock themselves.
+func instrLocking(name string, list []ast.Stmt) []ast.Stmt {
+	out := []ast.Stmt{yieldStmt(name, 0)}
+	count++
+	held, forever := false, false
+	for i, st := range list {
+		switch lockCall(st) {
+		case "lock":
+			held = true
+		case "unlock":
+			out = append(out, st)
+			held = false
+			continue
+		case "deferunlock":
+			forever = true
+		default:
+			if !held && !forever && i > 0 && !mentionsLock(st) {
+				out = append(out, yieldStmt(name, fset.Position(st.Pos()).Line))
+				count++
+				wrap := &ast.BlockStmt{List: []ast.Stmt{st}}
+				switch st.(type) {
+				case *ast.ForStmt, *ast.RangeStmt, *ast.IfStmt, *ast.SwitchStmt, *ast.BlockStmt:
+					// reuse the recursive descent (it also prepends one yield to the wrapper)
+					instrBlock(name, wrap)
+					out = append(out, wrap.List[1:]...)
+					continue
+				}
+			}
+		}
+		out = append(out, st)
+	}
+	return out
+}
+
 // pushSelect rewrites (*httpPushStreamConn).Receive: in front of its select over the three
 // outcome queues it inserts non-blocking polls of the queues in an order returned by
 // verifSelectOrder(len(fast), len(slow), len(nack)) (empty when the hook is unset, so the
@@ -194,8 +274,7 @@ func main() {
 			continue
 		}
 		if locks(fd.Body) {
-			fd.Body.List = append([]ast.Stmt{yieldStmt(fd.Name.Name, 0)}, fd.Body.List...)
-			count++
+			fd.Body.List = instrLocking(fd.Name.Name, fd.Body.List)
 		} else {
 			lockFree++
 			instrBlock(fd.Name.Name, fd.Body)
